@@ -54,7 +54,9 @@ func run(c *C) {
 	}
 }
 
-// known-finding signatures
+// signatures of the two defects this check found and that were repaired in /repo (2afca19, ff1f95d; `fixed:`
+// lines in known-findings.txt). The classifiers are kept so that a regression is labelled — and, with no
+// `known:` line left, reported as a VIOLATION.
 const (
 	sigLazyDup   = "mset-lazy-duplicate-item-remarshal"
 	sigNonMinLen = "mset-unknown-item-nonminimal-length-fast-vs-reflection"
@@ -755,7 +757,8 @@ func (g *gen) genContent() *Case {
 type expectation struct {
 	verdict   string // "err" | "ok <dethex>" | "ok marshal-err"
 	size      int
-	callbacks []mitem
+	callbacks []mitem // calls fn(typeID, value) of messageset.Unmarshal(b, true, fn)
+	cb0       []mitem // … of messageset.Unmarshal(b, false, fn) (payloads without length prefix)
 	items     []mitem // decoded content (payloads concatenated per type id), model order
 	unknown   []byte
 	lazyDef   string // predicted default encoding of the lazily decoded generated message ("" = no prediction)
@@ -772,15 +775,21 @@ func validPayload(xt protoreflect.ExtensionType, p []byte) (canon []byte, ok, in
 	return canon, err == nil, proto.CheckInitialized(m) == nil
 }
 
-func expect(c *C, T *setType, wantLen bool, b []byte) *expectation {
+// expect: what proto.Unmarshal + Marshal have to produce on b according to the model; fast = the
+// table-driven path, otherwise the reflection path. Both call messageset.Unmarshal(b, true, fn).
+func expect(c *C, T *setType, fast bool, b []byte) *expectation {
 	e := &expectation{}
-	w := b01(wantLen)
-	ans := c.Ask("items %d %s", w, vh.Hex(b))
+	w := b01(fast)
+	const wantLen = true
+	ans := c.Ask("items 1 %s", vh.Hex(b))
 	if !strings.HasPrefix(ans, "ok ") {
 		e.verdict = "err"
 		return e
 	}
 	e.callbacks = parseItems(ans[3:])
+	if a0 := c.Ask("items 0 %s", vh.Hex(b)); strings.HasPrefix(a0, "ok ") {
+		e.cb0 = parseItems(a0[3:])
+	}
 	count := map[int64]int{}
 	lazyOK := map[int64]bool{}
 	lazyBuf := map[int64][]byte{}
@@ -837,7 +846,7 @@ func expect(c *C, T *setType, wantLen bool, b []byte) *expectation {
 		e.verdict = "ok marshal-err"
 	}
 	e.size, _ = strconv.Atoi(c.Ask("size %s %s", fmtItems(canon), vh.Hex(e.unknown)))
-	if wantLen && flags.LazyUnmarshalExtensions {
+	if fast && flags.LazyUnmarshalExtensions {
 		// fast path, lazy extensions: an extension all of whose occurrences validated as initialized is
 		// kept as raw records and passed through by the default Marshal
 		sorted := append([]mitem(nil), canon...)
@@ -845,7 +854,11 @@ func expect(c *C, T *setType, wantLen bool, b []byte) *expectation {
 		var out []byte
 		for _, it := range sorted {
 			if lazyOK[it.ID] {
-				out = append(out, vh.UnHex(c.Ask("lazyitem %d %s", it.ID, vh.Hex(lazyBuf[it.ID])))...)
+				li := c.Ask("lazyitem %d %s", it.ID, vh.Hex(lazyBuf[it.ID]))
+				if !strings.HasPrefix(li, "ok ") {
+					return e // the model says the pass-through panics: no prediction, the comparison of "gen" reports
+				}
+				out = append(out, vh.UnHex(li[3:])...)
 			} else {
 				out = append(out, vh.UnHex(c.Ask("item %d %s", it.ID, vh.Hex(it.P)))...)
 			}
@@ -861,11 +874,11 @@ func expect(c *C, T *setType, wantLen bool, b []byte) *expectation {
 // nonMinimalUnknown: some item with an unresolved type id carries a single message field whose length
 // prefix is not minimal (computed from the model's two callback sequences).
 func nonMinimalUnknown(T *setType, e0, e1 *expectation) bool {
-	if len(e0.callbacks) != len(e1.callbacks) {
+	if len(e1.cb0) != len(e1.callbacks) {
 		return false
 	}
-	for i := range e0.callbacks {
-		a, b := e0.callbacks[i], e1.callbacks[i]
+	for i := range e1.cb0 {
+		a, b := e1.cb0[i], e1.callbacks[i]
 		if T.known[int32(a.ID)] == nil && !bytes.Equal(protowire.AppendBytes(nil, a.P), b.P) {
 			return true
 		}
@@ -920,7 +933,7 @@ func sigFor(code string, T *setType, e0, e1 *expectation, a, b string) string {
 	case strings.HasPrefix(code, "gen:roundtrip-default") && e1.dupKnown && !reflectBuild:
 		return sigLazyDup
 	case (code == "eq:gen-dyn" || code == "fast-vs-reflection") && nonMinimalUnknown(T, e0, e1) &&
-		bytes.Equal(normRecords(e1.unknown), e0.unknown) && a != "" && normDigest(a) == normDigest(b):
+		a != "" && normDigest(a) == normDigest(b):
 		return sigNonMinLen
 	}
 	return ""
@@ -1102,7 +1115,7 @@ func runContentCase(c *C, p *peer, cs *Case) {
 				sort.Slice(got, func(i, j int) bool { return got[i].ID < got[j].ID })
 				srt := append([]mitem(nil), items...)
 				sort.Slice(srt, func(i, j int) bool { return srt[i].ID < srt[j].ID })
-				okd = fmtItems(got) == fmtItems(srt) && f[2] == vh.Hex(normRecords(u))
+				okd = fmtItems(got) == fmtItems(srt) && f[2] == vh.Hex(u)
 			}
 			c.Check(okd, "model decode of the default (any order) encoding is not the content", in, "")
 		}
@@ -1263,7 +1276,7 @@ func runC47(c *C) {
 			}
 		}
 	}
-	// the two findings known on the unchanged tree, as fixed corpus entries
+	// the inputs of the two repaired defects, as fixed corpus entries
 	for _, cs := range []*Case{
 		{Kind: "bytes", Type: "messagesetpb", Hex: "0b10e8071a0208010c0b10e8071a0210070c"}, // two items of extension 1000
 		{Kind: "bytes", Type: "messagesetpb", Hex: "0b1088271a820008010c"},                 // unknown item, length prefix 82 00
